@@ -19,7 +19,8 @@ def prompt(rnd, p, letters):
                          why=p.get("why_tests_cant", ""),
                          anchors=json.dumps(p.get("anchors"), indent=1),
                          letters=", ".join(letters),
-                         l0=letters[0], n=len(letters))
+                         l0=letters[0], n=len(letters),
+                         extra=os.environ.get("SEED_EXTRA", ""))
 
 
 PROMPT = """You are helping to evaluate a verification tool. You work ONLY in the scratch git worktree {wt} (a checkout of zopefoundation/ZConfig, a pure-Python configuration library; sources in src/ZConfig, docs in docs/). Never touch /repo or /verif and do not read anything under /verif.
@@ -36,7 +37,7 @@ WHY TESTS CANNOT SETTLE IT: {why}
 
 ANCHORS (where the behaviour lives): {anchors}
 
-Your task: write {n} DIFFERENT realistic changes to the library source (under src/ZConfig, not the tests) that each BREAK this property, while the code still imports and the whole existing test suite still passes. Think of the kind of change a well-meaning maintainer could make: a refactoring slip, an "optimisation", a reordered check, a changed default, a cache, a copy that became an alias, a condition that is slightly too wide or too narrow, an off-by-one, two sites that each look fine alone but disagree. Each change must need something SPECIFIC to manifest (an unusual input, a multi-step sequence of operations, a particular nesting/ordering, two cooperating sites) - NOT something ordinary use would expose at once. The {n} changes must be in different functions (preferably different modules or different clauses of the property) and break the property in different ways. Prefer subtle semantic edits over deleting whole features. Avoid changes that merely alter an error message's wording.
+Your task: write {n} DIFFERENT realistic changes to the library source (under src/ZConfig, not the tests) that each BREAK this property, while the code still imports and the whole existing test suite still passes. Think of the kind of change a well-meaning maintainer could make: a refactoring slip, an "optimisation", a reordered check, a changed default, a cache, a copy that became an alias, a condition that is slightly too wide or too narrow, an off-by-one, two sites that each look fine alone but disagree. Each change must need something SPECIFIC to manifest (an unusual input, a multi-step sequence of operations, a particular nesting/ordering, two cooperating sites) - NOT something ordinary use would expose at once. The {n} changes must be in different functions (preferably different modules or different clauses of the property) and break the property in different ways. {extra} Prefer subtle semantic edits over deleting whole features. Avoid changes that merely alter an error message's wording.
 
 For each change (letters {letters}):
 1. Start from a clean tree (git -C {wt} checkout -- . ), make the edit, and run the test suite: cd {wt} && PYTHONPATH={wt}/src /venv/bin/python -m pytest -q -p no:cacheprovider src/ZConfig 2>&1 | tail -3   (it must show the same result as the unmodified tree: everything passes, apart from at most the one test that already fails on the clean tree - check that first).
